@@ -171,13 +171,13 @@ impl Check for C19 {
         vec!["the reference table (requests.rs::verdict, DESIGN.md appendix A) is a correct reading of MQTT 5.0".into(), "string content rules (wildcards in a response topic, U+0000) are invalid user input and not generated".into()]
     }
     fn workloads(&self) -> Vec<Workload> {
-        vec![Workload { name: "property-cells", quick: 27 * 7 * 7, thorough: 27 * 7 * 7 }, Workload { name: "qos-cap-cells", quick: 5 * 3 * 2 * 3, thorough: 5 * 3 * 2 * 3 }, Workload { name: "empty-lists", quick: 6, thorough: 6 }, Workload { name: "legal-sets", quick: 15, thorough: 15 }, Workload { name: "requests-after-random-histories", quick: 400, thorough: 600_000 }]
+        vec![Workload { name: "property-cells", quick: 27 * 7 * 7, thorough: 27 * 7 * 7 }, Workload { name: "qos-cap-cells", quick: 5 * 3 * 2 * 3, thorough: 5 * 3 * 2 * 3 }, Workload { name: "empty-lists", quick: 6, thorough: 6 }, Workload { name: "legal-sets", quick: 15, thorough: 15 }, Workload { name: "requests-after-random-histories", quick: 400, thorough: 600_000 }, Workload { name: "long-property-blocks", quick: 96, thorough: 96 }]
     }
     fn min_nontrivial(&self, _tier: Tier) -> usize {
         400
     }
     fn required_counters(&self) -> Vec<&'static str> {
-        vec!["cells_accept", "cells_reject", "no_trace_comparisons", "downgrade_cells", "dead_handle_cells", "blocked_state_cells", "qos_cap_cells_after_reconnect", "reply_cells", "legal_set_cells", "dead_by_keepalive_timeout_cells", "random_history_requests", "random_history_rejects_judged", "random_history_rejects_reported_invalid", "closing_handle_cells"]
+        vec!["cells_accept", "cells_reject", "no_trace_comparisons", "downgrade_cells", "dead_handle_cells", "blocked_state_cells", "qos_cap_cells_after_reconnect", "reply_cells", "legal_set_cells", "dead_by_keepalive_timeout_cells", "random_history_requests", "random_history_rejects_judged", "random_history_rejects_reported_invalid", "closing_handle_cells", "long_property_block_cells"]
     }
     fn exhaustive(&self) -> bool {
         true
@@ -734,6 +734,44 @@ impl Check for C19 {
                 if out.sample.is_none() {
                     out.sample = Some(serde_json::json!({"request": format!("{:?} {:?}", ctx, set), "verdict": format!("{:?}", v), "outcome": format!("{:?}", op.outcome), "ops_before": d.req_op}));
                 }
+            }
+            5 => {
+                // legal properties whose block is long: its length needs one, two or three bytes
+                // (127/128, 16383/16384); every request kind, a transmit arena with ample room
+                let ctx = [Ctx::Publish, Ctx::Subscribe, Ctx::Unsubscribe, Ctx::Disconnect][(index % 4) as usize];
+                let block = [100usize, 127, 128, 129, 1000, 16_382, 16_383, 16_384, 16_385, 16_390, 20_000, 40_000][((index / 4) % 12) as usize];
+                let two = (index / 48) % 2 == 1;
+                // ReasonString / UserProperty: identifier 1 byte + 2-byte length(s) + text
+                let props = if ctx == Ctx::Disconnect && !two { vec![Prop::ReasonString("r".repeat(block - 3))] } else if two { vec![Prop::UserProperty("k".into(), "v".repeat(block / 2 - 6)), Prop::UserProperty("kk".into(), "w".repeat(block - block / 2 - 6))] } else { vec![Prop::UserProperty("key".into(), "v".repeat(block - 8))] };
+                let cfg = CaseCfg { rx: 256, tx: 100_000, keepalive: 0, ..CaseCfg::default() };
+                let label = format!("long-block/{:?}/{}/{}", ctx, block, if two { "two" } else { "one" });
+                out.key(format!("long-block/{:?}/{}", ctx, block));
+                let mut steps = vec![connect_with(SpMode::Force(false), AckMode::Immediate, vec![])];
+                let req_at = steps.len();
+                steps.push(match ctx {
+                    Ctx::Publish => Step::Publish(PubSpec { topic: "c19".into(), payload: PayloadSpec::Fill { len: 3, tag: 5, ascii: false }, qos: 1, retain: false, props: props.clone(), correlate: None, cancel_at: None }),
+                    Ctx::Subscribe => Step::Subscribe(SubSpec { filters: vec![FilterSpec { filter: "c19/#".into(), max_qos: 1, no_local: false, rap: false, rh: 0 }], props: props.clone(), cancel_at: None }),
+                    Ctx::Unsubscribe => Step::Unsubscribe(UnsubSpec { filters: vec!["c19".into()], props: props.clone(), cancel_at: None }),
+                    _ => Step::Disconnect(DiscSpec { reason: Some(0), props: Some(props.clone()), cancel_at: None }),
+                });
+                steps.push(poll0());
+                let want = props.clone();
+                judge_run(&cfg, steps, label.clone(), &mut out, &mut |t, out| {
+                    out.count("long_property_block_cells", 1);
+                    let Some(op) = t.log.ops.iter().find(|o| o.step == req_at) else { return };
+                    if !matches!(op.outcome, Outcome::Ok(_)) {
+                        out.violations.push(viol("C19", format!("C19/long-property-block/{:?}/refused", ctx).to_lowercase(), format!("{}: a legal request with a property block of {} bytes returned {:?}", label, block, op.outcome)));
+                        return;
+                    }
+                    let on_wire = t.w.conns[0].out.packets.iter().any(|k| match &k.pkt {
+                        CPacket::Publish { props, .. } | CPacket::Subscribe { props, .. } | CPacket::Unsubscribe { props, .. } => *props == want,
+                        CPacket::Disconnect { props, .. } => *props == want,
+                        _ => false,
+                    });
+                    if !on_wire {
+                        out.violations.push(viol("C19", format!("C19/long-property-block/{:?}/not-on-wire", ctx).to_lowercase(), format!("{}: accepted, but no packet with these properties is on the wire", label)));
+                    }
+                });
             }
             3 => {
                 // several legal properties on one request: repeated User Properties (the one kind
